@@ -87,6 +87,20 @@ LexRecAllPairs(B, fin, i, HV, HF) ==
         ELSE \A a \in MinCardSets(xv) : \A b \in MinCardSets(xf) :
                 LexRecAllPairs(B, fin, i - 1, Fix(B, fin[i], HV, a), Fix(B, fin[i], HF, b))
 
+(* wrong variant: after a tie the verifying continuation must also beat the *)
+(* continuations of falsifying sets that are NOT of minimum cardinality     *)
+RECURSIVE LexRecAllMcsF(_, _, _, _, _)
+LexRecAllMcsF(B, fin, i, HV, HF) ==
+    LET xv == Mcs(B, fin[i], HV)
+        xf == Mcs(B, fin[i], HF)
+    IN  IF xv = {} THEN FALSE
+        ELSE IF xf = {} THEN TRUE
+        ELSE IF MinCard(xv) < MinCard(xf) THEN TRUE
+        ELSE IF MinCard(xf) < MinCard(xv) THEN FALSE
+        ELSE IF i = 1 THEN FALSE
+        ELSE \E a \in MinCardSets(xv) : \A b \in xf :
+                LexRecAllMcsF(B, fin, i - 1, Fix(B, fin[i], HV, a), Fix(B, fin[i], HF, b))
+
 (* wrong variant: non-strict comparison of the cardinalities *)
 RECURSIVE LexRecLeq(_, _, _, _, _)
 LexRecLeq(B, fin, i, HV, HF) ==
@@ -109,6 +123,7 @@ AlgoWAnyTie(B, q, WS, weakly)     == AlgoDecide(B, q, WS, weakly, WRecAnyTie)
 AlgoLex(B, q, WS, weakly)         == AlgoDecide(B, q, WS, weakly, LexRec)
 AlgoLexAllPairs(B, q, WS, weakly) == AlgoDecide(B, q, WS, weakly, LexRecAllPairs)
 AlgoLexLeq(B, q, WS, weakly)      == AlgoDecide(B, q, WS, weakly, LexRecLeq)
+AlgoLexAllMcsF(B, q, WS, weakly)  == AlgoDecide(B, q, WS, weakly, LexRecAllMcsF)
 
 (* extended p-entailment as coded (p_entailment.py): partition of the base  *)
 (* plus the negated query; entailed iff no partition exists or the          *)
